@@ -101,6 +101,28 @@ class Ctx:
                 return body(x, k, c)
             return sink
 
+        if kind == 'tornado':
+            from tornado import gen as _gen
+
+            @_gen.coroutine
+            def tbody(x, k, c):
+                log.add('START', nid, x, k, c)
+                d = self._svc(spec, k)
+                if d > 0:
+                    yield _gen.sleep(d)
+                if k in fail:
+                    log.add('FAILED', nid, x, k, c)
+                    raise F.InjectedFault((nid, k))
+                log.add('END', nid, x, k, c)
+
+            def sink(x):        # a tornado coroutine: runs up to its first yield when called, returns a Future
+                k = state['k']
+                state['k'] += 1
+                c = cause()
+                log.add('CALLED', nid, x, k, c)
+                return tbody(x, k, c)
+            return sink
+
         def sink(x):        # returns a Future completed by a timer
             k = state['k']
             state['k'] += 1
